@@ -2,6 +2,7 @@ import WebPkg.Driver.OpsBSig
 import WebPkg.Driver.OpsCbor
 import WebPkg.Model.Trace
 import WebPkg.Model.PathUrl
+import WebPkg.Model.CountingWriter
 namespace WebPkg.Driver
 open WebPkg.Trace
 
@@ -57,6 +58,21 @@ def handleFault (op : String) (args : List String) : Option String :=
       let r := runChecked m [out] kk
       pure (if r.failed then "err good" else "ok good")
   | "path.url", [b, r] => do pure s!"ok {toHex (PathUrl.pathToURL (← ofHex b) (← ofHex r))}"
+  | "cw.seq", [kind, room, ops] => do
+    let k ← match kind with
+      | "buf" => some CW.DestKind.readerFrom | "plain" => some .plain
+      | "short" => some (.failing true) | "hard" => some (.failing false) | _ => none
+    let parsed ← (ops.splitOn ",").mapM fun o =>
+      if o.startsWith "w" then (o.drop 1).toString.toNat?.map CW.Op.write
+      else match (o.drop 1).toString.splitOn "/" with
+        | [t, c] => do pure (CW.Op.readFrom (← t.toNat?) (← c.toNat?))
+        | _ => none
+    let (s, rets) := parsed.foldl (fun (acc : CW.State × List String) op =>
+      let r := match op with
+        | .write n => CW.write acc.1 n
+        | .readFrom t c => CW.readFrom acc.1 t c
+      (r.2.2, acc.2 ++ [s!"{r.1}:{if r.2.1 then "1" else "0"}"])) (CW.init k (← room.toNat?), [])
+    pure s!"{s.written} {s.received} {",".intercalate rets}"
   | "faultlen", kind :: rest => do
     match ← faultFreeOutput kind rest with
     | none => pure "inputerr"
